@@ -203,6 +203,9 @@ class Exec:
         return Const(f"{name}!{next(self.counter)}", sort)
 
     def fresh_sv(self, name, ty):
+        if ty.startswith("args:"):
+            # a *args tuple of statically known length: one entry per listed element type
+            return SV("tuple", items=[self.fresh_sv(f"{name}{i}", t) for i, t in enumerate([t for t in ty[5:].split(",") if t])])
         kind, hint = type_hint(ty)
         sort = {"int": IntSort(), "bool": BoolSort(), "v": V, "seq": Sq, "set": SetS}[kind]
         return SV(kind, self.fresh(name, sort), hint)
@@ -1542,7 +1545,11 @@ def _patch_exec():
         if not nodes:
             return k(acc, st)
         if isinstance(nodes[0], ast.Starred):
-            raise OutOfSubset("starred argument")
+            def got_star(sv, st2):
+                if sv.kind != "tuple":
+                    raise OutOfSubset("starred argument of unknown length")
+                self.ev_list(nodes[1:], st2, ctx, k, acc + list(sv.items))
+            return self.ev(nodes[0].value, st, ctx, got_star)
         self.ev(nodes[0], st, ctx, lambda sv, st2: self.ev_list(nodes[1:], st2, ctx, k, acc + [sv]))
     E.ev_list = ev_list
 
@@ -2201,6 +2208,18 @@ def _patch_loops():
     def ex_For(self, s, st, ctx):
         k_ord = self.loop_ordinals[id(s)]
         def got_iter(itsv, st1):
+            if itsv.kind == "tuple":
+                # statically known elements (e.g. *args of fixed arity): unrolled, no invariant needed
+                items = list(itsv.items)
+                def step(i, stx):
+                    if i == len(items):
+                        if s.orelse:
+                            return self.ex_block(s.orelse, stx, ctx)
+                        return ctx.k(stx)
+                    nxt = lambda s2: step(i + 1, s2)
+                    bctx = Ctx(nxt, ctx.ret, ctx.exc, ctx.k, nxt)
+                    self.assign(s.target, items[i], stx, bctx, lambda s3: self.ex_block(s.body, s3, bctx))
+                return step(0, st1)
             it_node = s.iter
             # enumerate / zip / range handled as index-aligned views
             seq, elem = self.iter_view(it_node, itsv, st1)
@@ -2441,6 +2460,8 @@ def _patch_calls():
         if cname is None:
             raise OutOfSubset(f"__new__ of {t}")
         r, st2 = self.alloc_obj(st, cname, "obj")
+        if CLASSES[cname].isa == "set":
+            st2 = self.hset(st2, "$set", r.t, K(V, False))
         k(r, st2)
     E.ev_new = ev_new
 
@@ -2887,7 +2908,8 @@ def _patch_run():
                     ty = "v"
             sv = self.fresh_sv(nm, ty)
             env[nm] = sv
-            facts += self.param_facts(nm, sv, ty, st)
+            for it in (sv.items if sv.kind == "tuple" else [sv]):
+                facts += self.param_facts(nm, it, ty, st)
         for nm, ty in self.types.items():
             if nm in env or nm.startswith(".") or ":" in nm:
                 continue
